@@ -90,6 +90,25 @@ Definition cmpx (inexact : bool) (r : string -> Q) (a b : expr) : nat :=
 
 (* semantic comparison of two compiled trees at the given points: every resource
    and every port of every node, matched by name.  1 = differ (or missing), 0 = agree, 2 = undefined *)
+(* the repetition of a node: count and sequence fields, compared field by field with comparison c *)
+Definition cmp_rep (c : expr -> expr -> list nat) (ra rb : option (expr * dseq expr)) : list nat :=
+  match ra, rb with
+  | None, None => []
+  | Some (ca, sa), Some (cb, sb) =>
+      (c ca cb ++
+       match sa, sb with
+       | DConst m, DConst m' => c m m'
+       | DArith x d, DArith x' d' => (c x x' ++ c d d')%list
+       | DGeom q, DGeom q' => c q q'
+       | DClosed su pr _, DClosed su' pr' _ =>
+           (match su, su' with Some x, Some y => c x y | None, None => [] | _, _ => [1%nat] end ++
+            match pr, pr' with Some x, Some y => c x y | None, None => [] | _, _ => [1%nat] end)%list
+       | DCustom t i, DCustom t' i' => ((if String.eqb i i' then 0%nat else 1%nat) :: c t t')%list
+       | _, _ => [1%nat]
+       end)%list
+  | _, _ => [1%nat]
+  end.
+
 Fixpoint cmp_trees (fuel : nat) (inexact : bool) (pts : list (string -> Q)) (a b : ctree expr) : list nat :=
   match fuel with
   | O => [1%nat]
@@ -110,7 +129,7 @@ Fixpoint cmp_trees (fuel : nat) (inexact : bool) (pts : list (string -> Q)) (a b
                                      | Some k' => cmp_trees f inexact pts k k'
                                      | None => [1%nat]
                                      end) (ct_children a) in
-      (sizes ++ res ++ prt ++ kids)%list
+      (sizes ++ res ++ prt ++ cmp_rep at_pts (ct_rep a) (ct_rep b) ++ kids)%list
   end.
 
 Fixpoint ct_height {D} (t : ctree D) : nat :=
@@ -215,7 +234,17 @@ Fixpoint map_tree (f : expr -> expr) (t : ctree expr) : ctree expr :=
       CT n ty ins sp
          (map (fun p => (fst p, (fst (snd p), f (snd (snd p))))) ports)
          (map (fun p => (fst p, (fst (snd p), f (snd (snd p))))) res)
-         conns rep cstrs (map (map_tree f) kids)
+         conns
+         (option_map (fun cs : expr * dseq expr =>
+                        (f (fst cs),
+                         match snd cs with
+                         | DConst m => DConst (f m)
+                         | DArith a d => DArith (f a) (f d)
+                         | DGeom q => DGeom (f q)
+                         | DClosed su pr n => DClosed (option_map f su) (option_map f pr) n
+                         | DCustom t i => DCustom (f t) i
+                         end)) rep)
+         cstrs (map (map_tree f) kids)
   end.
 
 (* ---------- comparisons used by the evaluation streams ---------- *)
@@ -238,7 +267,7 @@ Fixpoint cmp_trees2 (fuel : nat) (c : option Q -> option Q -> nat) (ra rb : stri
                                      | None => [1%nat]
                                      end) (ct_children a) in
       ((if Nat.eqb (List.length (ct_resources a)) (List.length (ct_resources b)) then 0%nat else 1%nat)
-         :: res ++ prt ++ kids)%list
+         :: res ++ prt ++ cmp_rep (fun x y => [c (evalQ ra x) (evalQ rb y)]) (ct_rep a) (ct_rep b) ++ kids)%list
   end.
 
 (* the environment after an assignment: assigned names read their value at r *)
